@@ -1134,6 +1134,11 @@ func (f ForkId) forkId(buf *strings.Builder, start int) (bool, error) {
 					part.Id.GoString(),
 			}
 		} else if alen == 0 {
+			if forkIndex != 0 {
+				// Forks which have no element here but differ in an
+				// enclosing index still need distinct ids.
+				return false, f.writeForkIndex(buf, forkDim, forkIndex)
+			}
 			return forkIndex == 0, nil
 		}
 		if err := r.Allow(part.Id); err != nil {
